@@ -568,6 +568,43 @@ def _fn_of(variant):
     return variant
 
 
+# ------------------------------------------------------------------ a node that is neither group nor dataset
+
+
+def check_named_datatype(rec, d):
+    """A committed (named) datatype stored through the container (`m[name] = numpy.dtype(..)`, plain HDF5 driver): what the interface hands
+    out for it must not be a raw node (whose .parent / .file are the unguarded raw group / file), and it must be deletable like on the plain tree."""
+    import h5py
+    import numpy as np
+
+    case = {"part": "named-datatype"}
+    fns = ["container/wrappers.py:MetadorNode._wrap_if_node", "container/wrappers.py:MetadorGroup.__setitem__"]
+    box = L.Box("h5", d)
+    try:
+        c = box.c
+        c.create_group("g")
+        c["g"].meta  # noqa: B018
+        L.apply_cop(box, ["meta", "g", "dir1"])
+        try:
+            c["g/dt"] = np.dtype("int32")
+        except Exception:  # noqa  refused: nothing to see
+            rec.check(True, "", "")
+            return
+        rec.case(("named-datatype",), nontrivial=True)
+        got = {"getitem": c["g/dt"], "values": [v for v in c["g"].values()][0], "items": dict(c["g"].items())["dt"], "get": c["g"].get("dt")}
+        raw = sorted(k for k, v in got.items() if isinstance(v, h5py.Datatype))
+        seen = sorted({n for v in got.values() if isinstance(v, h5py.Datatype) for n in list(v.parent.keys()) + list(v.file.keys()) if n.startswith("metador_")})
+        rec.check(not raw, "c08:raw-node-handed-out:named-datatype", f"a named datatype is handed out as a raw h5py node by {raw}; through its .parent/.file the bookkeeping entities {seen} are visible and addressable", case, fns)
+        try:
+            del c["g/dt"]
+            err = None
+        except Exception as e:  # noqa
+            err = e
+        rec.check(err is None and "dt" not in c["g"], "c08:raw-node-handed-out:named-datatype:cannot-be-deleted", f"deleting the named datatype through the container fails ({type(err).__name__}: {err}); the plain tree deletes it", case, fns)
+    finally:
+        box.destroy()
+
+
 # ------------------------------------------------------------------ run / replay
 
 
@@ -624,6 +661,7 @@ def run(tier: str, seed: int) -> dict:
     reached = {}
     status_notes = {}
     with tmpdir(prefix="vrc2_c08_") as d:
+        check_named_datatype(rec, d)
         t_kind = t0
         for kind, share in plan:
             t_start, t_end = t_kind, t_kind + total * share
@@ -747,6 +785,13 @@ def replay(case: dict):
     if case.get("part") == "proto":
         unc = uncovered_protocol_members()
         return bool(unc), f"uncovered protocol members: {unc}"
+    if case.get("part") == "named-datatype":
+        rec = Recorder(PID, DRV)
+        with tmpdir(prefix="vrc2_c08_") as d:
+            check_named_datatype(rec, d)
+        if rec.violations:
+            return True, "; ".join(v["signature"] + " :: " + v["what"][:250] for v in rec.violations[:2])
+        return False, "named datatypes are refused, or handed out wrapped and deletable"
     with tmpdir(prefix="vrc2_c08_") as d:
         if case["part"] == "a":
             bad, info, box, ref = eval_history_a(case["kind"], d, case["history"])
